@@ -86,7 +86,8 @@ class HeapFn(cxx2gal.LoopFn):
         q = re.sub(r"^(struct|class)\s+", "", q)
         if "::" in q and q not in self.tr.layouts and q.split("::")[-1] in self.tr.layouts:
             return q.split("::")[-1]         # a nested class, named with its qualification
-        return q
+        q = re.sub(r"\bconst\b", "", q).strip() if re.sub(r"\bconst\b", "", q).strip() in self.cfg.get("record_aliases", {}) else q
+        return self.cfg.get("record_aliases", {}).get(q, q)      # a base class every object of which is (here) of one modelled derived class
 
     def is_record(self, q):
         return self.rec_name(q) in self.tr.layouts
@@ -403,6 +404,9 @@ class HeapFn(cxx2gal.LoopFn):
             return self.E(inn[0], k)         # SimpleString x = <text>: the same text
         if kd in CASTS and n.get("castKind") == "ConstructorConversion":
             return self.E(inn[0], k)
+        if kd in CASTS and n.get("castKind") == "BaseToDerived" and self.cfg.get("record_aliases") and \
+                self.rec_name(norm_type(qual(inn[0])).rstrip("* ")) == self.rec_name(norm_type(qual(n)).rstrip("* ")):
+            return self.E(inn[0], k)         # the base class is modelled AS this derived class (record_aliases): the same address
         if kd in CASTS and n.get("castKind") in ("DerivedToBase", "UncheckedDerivedToBase") and self.cfg.get("derived_as_base"):
             return self.E(inn[0], k)         # a pointer to a derived object used as a pointer to its (modelled) base: the same address
         if kd in ("CXXOperatorCallExpr", "CXXMemberCallExpr", "CallExpr"):
@@ -607,6 +611,8 @@ class HeapFn(cxx2gal.LoopFn):
                     def go(i, acc):
                         if i == len(args):
                             return k("(%s %s)" % (spec0["fun"], " ".join(([r] if r is not None else []) + acc)))
+                        if self.is_record(qual(args[i])):      # an object of a modelled record handed over by reference: its address
+                            return self.obj_addr(args[i], lambda v: go(i + 1, acc + [v]))
                         return self.E(args[i], lambda v: go(i + 1, acc + [v]))
                     return go(0, [])
                 if spec0.get("recv"):
@@ -721,6 +727,7 @@ class HeapFn(cxx2gal.LoopFn):
         if spec.get("writes"):
             self.stores = True
             return "(match %s fuel0 mem %s with FOk (%s, mem) => %s | FOob => Oob | FNoFuel => NoFuel end)" % (fn, " ".join(args), r, k(r))
+        self.tr.__dict__.setdefault("pure_calls", {}).setdefault(fn, set()).add(self.coq)     # checked after the whole group is translated
         return "(match %s fuel0 mem %s with FOk %s => %s | FOob => Oob | FNoFuel => NoFuel end)" % (fn, " ".join(args), r, k(r))
 
     # ------------------------------------------------------------------ local objects of classes that are not modelled
@@ -910,6 +917,7 @@ class HeapFn(cxx2gal.LoopFn):
         self.nloops = 0
         base = "unit" if void else self.coqtype_of(ret)
         self.rtype = "(%s * %s)" % (base, self.MEM_T) if self.fn_stores else base
+        self.tr.__dict__.setdefault("storing", {})[self.coq] = self.fn_stores
         ghosts = self.cfg.get("ghosts", [])
         if ghosts:
             self.fn_stores = True
@@ -1082,7 +1090,13 @@ class HeapTranslator(cxx2coq.Translator):
     def _parent_is(d, docs, cls):
         """the method belongs to class cls: its mangled name starts with the length-prefixed class and function names"""
         fn = d.get("name", "")
-        return bool(re.match(r"_ZNK?%d%s%d%s" % (len(cls), re.escape(cls), len(fn), re.escape(fn)), d.get("mangledName", "")))
+        m = d.get("mangledName", "")
+        tail = "%d%s%d%s" % (len(cls), cls, len(fn), fn)
+        if re.match(r"_ZNK?" + re.escape(tail), m):
+            return True
+        # a nested class: its enclosing classes come first, each with its length
+        mm = re.match(r"_ZNK?((?:\d+[A-Za-z_]\w*?)+?)" + re.escape(tail), m)
+        return bool(mm)
 
 
 def compiler_sizeof(repo, path, rec):
@@ -1137,6 +1151,12 @@ def generate_cached(h, repo, root, name, cfgs, header, records, footer=""):
             return "(* %s : NOT TRANSLATED: %s *)\n" % (cfg["name"], str(e).replace("*)", "* )")), "%s: %s" % (cfg["name"], e)
     with ThreadPoolExecutor(8) as ex:
         res = list(ex.map(one, cfgs))
+    # a call translated as pure (the heap is not taken back from the callee) to a function of this group that stores: the
+    # configuration must say "writes" for it -- otherwise the callee's stores would be silently dropped
+    for fn, callers in sorted(getattr(tr, "pure_calls", {}).items()):
+        if getattr(tr, "storing", {}).get(fn):
+            res.append(("(* CONFIGURATION ERROR: %s stores into the heap but is called as a pure function by %s *)\n" % (fn, ", ".join(sorted(callers))),
+                        "%s stores into the heap but its call entry lacks \"writes\" (callers: %s)" % (fn, ", ".join(sorted(callers)))))
     for text, err in res:
         out.append(text)
         if err:
